@@ -21,6 +21,11 @@ def conversations():
         ('status-server-gone', dict(allowed={757, 756}, refuse_after=1,
                                     cfg={'version': 757, 'status': status, 'close_after_status': True,
                                          'script': [('success',), ('close',)]})),
+        # the stand-alone status() API (no fallback documented there): response + pong, and response only
+        ('plain-status+ping', dict(allowed={757, 756}, api='status-ping',
+                                   cfg={'version': 757, 'status': status, 'script': []})),
+        ('plain-status', dict(allowed={757, 756}, api='status',
+                              cfg={'version': 757, 'status': status, 'close_after_status': True, 'script': []})),
         ('status-then-login', dict(allowed={757, 756}, cfg={'version': 757, 'status': status,
                                                              'close_after_status': True,
                                                              'script': [('success',)] + play[:3] + [('close',)]})),
@@ -34,7 +39,7 @@ def conversations():
     ]
 
 
-def run_one(C, P, allowed, cfg, cut, segment=None, initial=756, refuse_after=None):
+def run_one(C, P, allowed, cfg, cut, segment=None, initial=756, refuse_after=None, api='connect'):
     cfg = dict(cfg)
     cfg['script'] = list(cfg['script'])
     cfg['budget'] = {'left': cut}
@@ -50,7 +55,11 @@ def run_one(C, P, allowed, cfg, cut, segment=None, initial=756, refuse_after=Non
         delivered = []
         conn.register_packet_listener(lambda p: delivered.append(p), P.Packet)
         try:
-            conn.connect()
+            if api == 'connect':
+                conn.connect()
+            else:
+                conn.status(handle_status=lambda d: events.append(('status',)),
+                            handle_ping=(lambda ms: events.append(('ping',))) if api == 'status-ping' else False)
             net.run_threads()
         except Exception as e:
             events.append(('raised', type(e).__name__))
@@ -64,7 +73,7 @@ def run(ctx):
     from minecraft.networking import packets as P
     for name, sc in conversations():
         # the uncut conversation: what is delivered, and how many bytes the server sends in total
-        kw = dict(initial=sc.get('initial', 756), refuse_after=sc.get('refuse_after'))
+        kw = dict(initial=sc.get('initial', 756), refuse_after=sc.get('refuse_after'), api=sc.get('api', 'connect'))
         probe = run_one(C, P, sc['allowed'], sc['cfg'], 10 ** 9, **kw)
         nfull = len(probe['delivered'])
         N = 10 ** 9 - probe['budget_left']
@@ -85,7 +94,7 @@ def run(ctx):
                     bad = '%d reads after end of stream' % r['eof_reads']
                 elif r['nconn'] > 2:
                     bad = 'the client opened %d connections (one status query and at most one fallback login are documented)' % r['nconn']
-                elif k < N and not r['events'] and not r['thread_errors'] and 'idle' not in r['stops']:
+                elif k < N and not [e for e in r['events'] if e[0] in ('exc', 'raised')] and not r['thread_errors'] and 'idle' not in r['stops']:
                     # the server never sends another byte: a fallback login ends in an error as well
                     bad = 'silent exit: no error reported (connections opened: %d)' % r['nconn']
                 elif 'idle' in r['stops'] and k < N:
